@@ -442,6 +442,21 @@ func selfConformance(c *Ctx) {
 				c.EnumFail("conformance", p.Name+"/catalogue-wrong", fmt.Sprintf("real Go produced %q which the catalogue does not allow (%v)", o, p.Allowed), nil)
 			}
 		}
+		// native mode: the rewritten program run outside of any execution (as the enumerating parts of
+		// the checks run library code) must behave like Go as well
+		func() {
+			defer func() {
+				if r := recover(); r != nil {
+					c.EnumFail("conformance", p.Name+"/native-mode-panic", fmt.Sprintf("the rewritten program panicked when run outside of an execution: %v", r), nil)
+				}
+			}()
+			for k := 0; k < 40; k++ {
+				if o := p.Run(); !allowed[o] {
+					c.EnumFail("conformance", p.Name+"/native-mode-wrong", fmt.Sprintf("the rewritten program run outside of an execution produced %q which Go's semantics do not allow (%v)", o, p.Allowed), nil)
+					break
+				}
+			}
+		}()
 		for o := range explored {
 			if !allowed[o] {
 				c.EnumFail("conformance", p.Name+"/invented-by-vrt", fmt.Sprintf("the exploration produced %q which Go's semantics do not allow (%v)", o, p.Allowed), nil)
